@@ -72,13 +72,8 @@ def readOracle : Sexp → Option Oracle
 
 def defaultIgnore (n : String) : Bool := n.startsWith "_"
 
-/-- token ranges of the `until` conditions that contain a function literal.  There the implementation interleaves reads and
-closure entries (the arguments of a call are read when the call is visited, a bare name only after the whole condition has
-been walked), while the resolution machine of `Scope/Core.lean` enters the closures first and reads afterwards.  The two can
-differ only in whether a read inside the condition is already covered by a *global* that a closure of the same condition
-assigns (`repeat until f(x, function() x = 1 end)`): local bindings, which every theorem is about, are not affected.  The
-machine's `undefined_variable` output is therefore not compared inside such a condition (the full ScopeVisitor model, which
-follows the implementation hook by hook, still is). -/
+/-- token ranges of the `until` conditions that contain a function literal (a coverage tag only: there the implementation
+interleaves reads and closure entries, which `Core.topE` / `Core.restE` follow) -/
 def untilClosureSpans (b : Block) : List Span :=
   (Selene.Lints.nodesB b).filterMap fun n => match n with
     | .stmt (.repeat_ _ _ c) =>
@@ -154,12 +149,10 @@ def handleTables : Handler := fun input impl =>
         let showAns := fun (l : List (Nat × Option Nat)) => sortStrs (l.map fun (t, b) => s!"{t}->{optNat b}")
         -- … and the lint over the machine's log (`Props/C01.lean`: C01_sound / C01_complete) against the
         -- implementation's `undefined_variable` diagnostics
-        let exempt := untilClosureSpans chunk.block
-        let outside := fun (t : Nat) => !exempt.any fun sp => sp.first ≤ t && t ≤ sp.last
-        let coreUndef := sortStrs (((Core.undefinedReports hasFields coreSt).eraseDups.filter outside).map toString)
+        let coreUndef := sortStrs (((Core.undefinedReports hasFields coreSt).eraseDups).map toString)
         let implUndef := sortStrs (((idiags.filterMap fun d => match d with
           | .list [.str "undefined_variable", .list [a, _], _, _] => a.asNat?
-          | _ => none).eraseDups.filter outside).map toString)
+          | _ => none).eraseDups).map toString)
         -- … and which reads are of the table indexed in an assignment target (`Props/C02.lean`: value uses) against
         -- the implementation's references that are both read and written by extension
         let coreRoots := sortStrs ((coreSt.refs.filter fun r => !r.decl && !r.write && r.root).map fun r => toString r.tok)
@@ -293,7 +286,7 @@ def handleTables : Handler := fun input impl =>
           (if !unusedToks.isEmpty then ["unused-reported"] else []) ++
           (if !shadowDiags.isEmpty then ["shadowing-reported"] else []) ++
           (if !mdHcc.isEmpty then ["cyclomatic-reported"] else []) ++
-          (if !exempt.isEmpty then ["until-closure"] else [])
+          (if !(untilClosureSpans chunk.block).isEmpty then ["until-closure"] else [])
         { agree := refsOk && varsOk && callsOk && diagsOk && panicOk && coreOk,
           spec := if items.isEmpty then none else some (" ;; ".intercalate items),
           model := (if md == idk then "" else "DEFAULT-CONFIG-DIAGS ") ++ (if panicOk then "" else s!"MODEL-PANIC {repr σ.panic} ") ++
